@@ -72,6 +72,9 @@ class Init(Contract):
             yield "separate_complex_types", S.eq(pp.separate_complex_types, sep)
             yield "end", pp.end == "END"
             yield "quoter.quote", pp.quoter.quote == QUOTES[case]
+            from mappyfile.validator import Validator
+            from mappyfile.quoter import Quoter
+            yield "own-quoter-and-validator", type(getattr(pp, "quoter", None)) is Quoter and type(getattr(pp, "validator", None)) is Validator
 
 
 @register
@@ -231,6 +234,7 @@ class ComputeAlignedMaxIndent(Contract):
         i = S.max2(1, pp.indent)
         r = E.fresh(S.INT, "amax")
         E.assume(S.and_(r > m, (r - i) <= m, r >= 1))
+        E.ctx.notes.append(("amax-call", r, m))
         return r
 
 
@@ -777,6 +781,7 @@ class ComputeMaxKeyLength(Contract):
         from pyvc.engine import MDict
         mkl = E.fresh(S.INT, "mkl")
         E.assume(mkl >= 0)
+        E.ctx.notes.append(("mkl-call", mkl, composite))
         if isinstance(composite, MDict) and composite.tail is not None:
             add_fact(composite.tail["items"],
                      lambda elem, mkl=mkl: S.implies(simple_key(elem[0], elem[1]), mkl >= S.length(elem[0])))
@@ -1329,6 +1334,18 @@ class FormatLoop(LoopSpec):
 
     def carried(self, E, L, coll):
         return {"lines": [Seg("_format.lines@pre")]}
+
+    def inv(self, E, L):
+        # C16: the column handed to every keyword line of this object is 0 without align_values, and with it the aligned
+        # column computed from the longest simple keyword of THIS object (not of a parent, a child or an earlier call)
+        pp, am = L["self"], L.get("aligned_max_indent")
+        amax = [n for n in E.ctx.notes if isinstance(n, tuple) and n and n[0] == "amax-call"]
+        mkl = [n for n in E.ctx.notes if isinstance(n, tuple) and n and n[0] == "mkl-call"]
+        if amax or mkl:
+            tied = len(amax) == 1 and len(mkl) == 1 and amax[0][2] is mkl[0][1] and mkl[0][2] is L["composite"] and am is amax[0][1]
+            yield "alignment-column-of-this-object", S.and_(tied, pp.align_values)
+        else:
+            yield "no-alignment-column-without-align_values", S.and_(S.not_(pp.align_values), S.eq(am, 0) if am is not None else False)
 
     def exit_state(self, E, L, coll):
         return {"lines": list(L["lines"]) + [Seg("_format.body", coll.info["owner"], L["level"])]}
